@@ -71,6 +71,8 @@ def run(model, res, tier):
              'shared with C07.R1/R2)')
     res.rule('R12', 'the tree is built by the grammar from the formula as written: no rewriting pass in front of the lexer (shared with C05.R9), and '
              'every path of parse() for a non-empty formula hands it to the grammar parser (no guard that answers for the grammar)')
+    res.rule('R13', 'the leaves and operator applications of the tree have their exact values: numeric literals convert exactly (C05.R5), text operands '
+             'act as the number they spell - zero included - or give #VALUE! (C06.R4, C06.R9)')
     res.rule('R9', 'the parse consumes a private token stream: the tree is built from all tokens of the formula even when a callback evaluates another formula (shared with C03.R1)')
     res.assumptions += ['A3 ply 3.11: function tokens are tried in definition order; yacc resolves S/R conflicts by the precedence table']
     res.trusted += ['ply.yacc Grammar/LRGeneratedTable as table generator', 'CPython ast', 're._parser']
@@ -92,6 +94,20 @@ def run(model, res, tier):
     from . import c05
     H.borrow(res, 'R12', 'text hand-over', lambda tmp: c05._r9(model, tmp, c))
     H.safely(res, 'R12', 'parse() always parses', _r12, model, res, c)
+    # the exact evaluation of leaves and arithmetic nodes: borrowed from the properties that own them
+    from . import c06
+    from .. import roles as _roles
+    from .c01 import error_singletons as _es
+    H.borrow(res, 'R13', 'number literals', lambda tmp: c05._r5_r6(model, tmp, c, g))
+    try:
+        _opq = H.date_opaque(model)
+        _acts = _roles.binary_actions(g)
+        _em, _singles = _es(model)
+        _E = dict((msg, n) for n, msg in _singles.items())
+        H.borrow(res, 'R13', 'text to number', lambda tmp: c06._to_number(model, tmp, _opq))
+        H.borrow(res, 'R13', 'text operands', lambda tmp: c06._text_and_zero(model, tmp, c, g, _acts, _opq, _E))
+    except AnalysisError as e:
+        res.notes.append('C04.R13: undecided (%s)' % e)
     H.safely(res, 'R10', 'r10', _r10, model, res, g)
     if tier == 'thorough':
         _r8(model, res, g)
